@@ -7,5 +7,6 @@ CONSTANTS
  Embs = {"Top", "InTuple"}
  NoExclusion = FALSE
  NoLastRule = FALSE
+ HalfLegal = FALSE
  SampleMod = 1
  SamplePhase = 0
